@@ -309,6 +309,17 @@ class State:
 _FEAS = {}
 
 
+def quick_unsat(facts, timeout_ms=1000):
+    """Cheap validity helper for path pruning and pattern selection: e-matching only, short timeout.
+    True only if the facts are certainly contradictory."""
+    s = z3.Solver()
+    s.set('timeout', timeout_ms)
+    s.set('auto_config', False)
+    s.set('smt.mbqi', False)
+    s.add(*facts)
+    return s.check() == z3.unsat
+
+
 class Exec:
     def __init__(self, unit, func, models, callees=None, loops=None, axioms=(), timeout_ms=20000, prune=True,
                  type_hints=None):
@@ -370,13 +381,7 @@ class Exec:
     def feasible(self, st, cond):
         if not self.prune:
             return True
-        s = z3.Solver()
-        s.set('timeout', 1500)
-        for a in self.axioms:
-            s.add(a)
-        s.add(*st.pc)
-        s.add(cond)
-        return s.check() != z3.unsat
+        return not quick_unsat(list(self.axioms) + list(st.pc) + [Z(cond)])
 
     def decide(self, st, cond, node=None):
         """Branch on a symbolic condition inside expression/statement evaluation (replay-with-decisions)."""
@@ -792,7 +797,7 @@ class Exec:
             if self.models.module_has(self.func.module, name):
                 qual = f'{self.func.module}.{name}'
         if qual is not None:
-            h = self.callees.get(qual) or self.models.CALLEES.get(qual)
+            h = self.callees.get(qual) or self.models.CALLEES.get(qual) or self.models.FUNCS.get(name)
             if h is None:
                 raise Unsupported(f'call of {qual} at line {e.lineno}: no contract available')
             args = [self.ev(a, st) for a in e.args]
